@@ -757,6 +757,8 @@ def check_network(ctx, GeoGrid, GeoNetwork, lat, lon, A, directed, wtype,
         w = net.node_weights
         ctx.evals()
         want = cl if kind == "surface" else cl ** 2
+        if kind is None:         # documented: None = constant unit weights
+            want = np.ones(n)
         if w is None or np.shape(w) != (n,):
             ctx.violation(f"node_weights:missing:{kind}",
                           {**case, "how": how, "w": repr(w)}, cid)
@@ -811,6 +813,26 @@ def check_network(ctx, GeoGrid, GeoNetwork, lat, lon, A, directed, wtype,
     ok, _ = ctx.call(net.set_node_weight_type, wtype)
     if ok:
         weights(wtype, "custom-weights-then-same-type")
+    # "no geographic weighting" (type None = unit weights): from the
+    # constructor, requested again over weights assigned by hand, and left
+    # for a geographic type afterwards
+    ok0, net0 = ctx.call(GeoNetwork, g, adjacency=A, directed=directed,
+                         node_weight_type=None, silence_level=3)
+    if ok0:
+        net_, net = net, net0
+        weights(None, "constructor(None)")
+        net.node_weights = np.linspace(1.0, 2.0, n)
+        ok, _ = ctx.call(net.set_node_weight_type, None)
+        if ok:
+            weights(None, "custom-weights-then-None")
+            ctx.count("unit_weight_type_sequences")
+            if abs(float(net.total_node_weight) - n) > 1e-9 * n:
+                ctx.violation("total_node_weight:stale-after-weight-type:None",
+                              {**case, "total": net.total_node_weight}, cid)
+        ok, _ = ctx.call(net.set_node_weight_type, wtype)
+        if ok:
+            weights(wtype, "None-then-type")
+        net = net_
     # a network that comes back from a file format without node attributes
     # gets the geographic weights of its grid (default type: surface)
     if n >= 2 and A.sum() > 0:
@@ -1107,6 +1129,57 @@ def check_network(ctx, GeoGrid, GeoNetwork, lat, lon, A, directed, wtype,
                     "cos_lat": cl})
 
 
+def check_regenerated_weights(ctx, lat, lon, wtype, cid):
+    """Climate networks derived from data regenerate themselves when a
+    setting of the similarity measure changes; the node weights afterwards
+    are still those of the weight type the network was built with."""
+    from pyunicorn import climate
+    from pvm.gen.objects import climate_data
+    r = ctx.rng("regen", cid)
+    n = len(lat)
+    T = 36
+    obs = r.normal(size=(T, n)) + np.outer(
+        np.sin(np.arange(T) * 2 * np.pi / 12), r.normal(size=n))
+    cl = ref.cos_lat(lat)
+    plans = [("TsonisClimateNetwork", {}, "set_winter_only", (True,)),
+             ("HavlinClimateNetwork", {"max_delay": 2}, "set_max_delay",
+              (3,)),
+             ("HilbertClimateNetwork", {}, "set_directed", (False,)),
+             ("SpearmanClimateNetwork", {}, "set_winter_only", (True,))]
+    cls, kw, setter, args = plans[int(r.integers(0, len(plans)))]
+    kind = [wtype, None, "irrigation"][int(r.integers(0, 3))]
+    want = {None: np.ones(n), "surface": cl, "irrigation": cl ** 2}[kind]
+    case = {"lat": lat, "lon": lon, "class": cls, "node_weight_type": kind,
+            "setter": setter, "obs": obs}
+    ok, cd = ctx.call(climate_data, obs, lat, lon, cycle=12)
+    if not ok:
+        ctx.count("rejected")
+        return
+    ok, net = ctx.call(getattr(climate, cls), cd, threshold=0.2,
+                       node_weight_type=kind, silence_level=3, **kw)
+    if not ok:
+        ctx.count("climate_constructor_rejected")
+        return
+    for how, step in (("constructor", None), (setter, args),
+                      ("set_threshold", (0.3,))):
+        if step is not None:
+            ok, e = ctx.call(getattr(net, how), *step)
+            if not ok:
+                ctx.count("regeneration_refused")
+                return
+        ctx.evals()
+        ctx.count("regenerated_weights_checked")
+        w = net.node_weights
+        if w is None or np.shape(w) != (n,) or \
+                np.abs(np.asarray(w, dtype=np.float64) - want).max() > WTOL \
+                or net.node_weight_type != kind:
+            ctx.violation(f"node_weights:ne-weight-type-after:{how}:"
+                          f"{'unit' if kind is None else kind}",
+                          {**case, "w": w,
+                           "type_now": repr(net.node_weight_type)}, cid)
+            return
+
+
 def _distance_weighted_queries(ctx, net):
     """the measures that use the distances as link weights (they store them
     as a link attribute of the network); asked before distance() is read"""
@@ -1328,6 +1401,9 @@ def run(ctx):
         with ctx.guard(120):
             check_network(ctx, GeoGrid, GeoNetwork, lat, lon, A, directed,
                           wtype, cid)
+        if k % 4 == 0 and n <= 12:
+            with ctx.guard(60):
+                check_regenerated_weights(ctx, lat, lon, wtype, cid + ":r")
         if k % 3 == 0:
             dim = 1 + (k // 3) % 5
             X = gen_euclid(r, dim, n, "normal")
